@@ -102,4 +102,16 @@ theorem tie_increment_sequence (d : duallane_DLIncrementSequenceDecorator) (ctx 
 /-- the new sequence is the old one plus one (no wrap-around below 2^64 − 1) -/
 theorem tie_increment_is_plus_one (seq : Nat) (h : seq + 1 < 2^64) : Go.uadd 64 seq 1 = seq + 1 := Go.uadd_of_lt _ _ h
 
+/-- **`07_deduct_fee`**: the fee itself is deducted by the SDK decorator with the dual-lane fee checker (tied in
+`Facts/TieAdmission.lean`); what this decorator adds is the "sender paid the fee in the ante handler" flag — raised exactly for
+Ethereum-lane transactions, *before* the deduction — on which the state transition's refund (`tie_refund_gas`) and the burn of
+the refunded fee in the message server depend (C04, C05) -/
+theorem tie_deduct_fee_flag (d : duallane_DLDeductFeeDecorator) (ctx : types_Context) (tx : types_Tx) (sim : Bool) (next : Next)
+    (b : Bool) (hb : utils_HasSingleEthereumMessage tx = some b) :
+    duallane_DLDeductFeeDecorator_AnteHandle d ctx tx sim next =
+      some ((d.cd_AnteHandle_tx sim next).2, if b then [Go.Effect.mk "dfd.ek.SetFlagSenderPaidTxFeeInAnteHandle" []] else []) := by
+  unfold duallane_DLDeductFeeDecorator_AnteHandle
+  simp only [hb]
+  cases b <;> rfl
+
 end Evermint.Facts.TieAnteSig
